@@ -346,8 +346,82 @@ def rule_r6(ctx) -> RuleResult:
     return rr
 
 
+def rule_r7(ctx) -> RuleResult:
+    """'No page is lost': parse_dump_xml() and add_page() do not commit, so until the first
+    unconditional commit on process_dump's path every ingested page lives in the open transaction.
+    No call made in between may open a scope that can roll that transaction back (`with <conn>:`
+    rolls back on an exception, `.rollback()` explicitly) -- a failure handled there would silently
+    discard the whole dump."""
+    from ..core.callgraph import CallGraph
+
+    rr = RuleResult("C12.R7", "nothing between ingestion and the first commit can roll back the open transaction", min_instances=2)
+    cg = CallGraph(ctx.index)
+    pd = ctx.fn("dumpparser.process_dump")
+
+    def rollback_scope(dotted):
+        if not ctx.index.has_func(dotted):
+            return None
+        for n in walk_no_nested(ctx.index.func(dotted)):
+            if isinstance(n, ast.With) and any("db_conn" in unparse(it.context_expr) and not isinstance(it.context_expr, ast.Call) for it in n.items):
+                return n
+            if isinstance(n, ast.Call) and unparse(n.func).endswith(".rollback"):
+                return n
+        return None
+
+    def commits_unconditionally(dotted):
+        if not ctx.index.has_func(dotted):
+            return False
+        return any(isinstance(st, ast.Expr) and isinstance(st.value, ast.Call) and unparse(st.value.func).endswith("db_conn.commit")
+                   for st in ctx.index.func(dotted).body)
+
+    # ordered calls of process_dump after parse_dump_xml
+    calls = sorted([c for c in walk_no_nested(pd) if isinstance(c, ast.Call) and isinstance(c.func, ast.Name)], key=lambda c: (c.lineno, c.col_offset))
+    names = [c.func.id for c in calls]
+    if "parse_dump_xml" not in names:
+        raise AnalysisError("process_dump: call of parse_dump_xml vanished")
+    dirty = False
+    committed = False
+    for c in calls:
+        callee = cg._resolve_name("dumpparser", "process_dump", c.func.id)
+        if c.func.id == "parse_dump_xml":
+            dirty = True
+            continue
+        if not dirty or callee is None:
+            continue
+        offenders = []
+        for f in sorted({callee} | cg.closure([callee])):
+            n = rollback_scope(f)
+            if n is not None:
+                offenders.append((f, n))
+        if offenders:
+            f, n = offenders[0]
+            rr.bad(Finding("C12.R7", ctx.index.mod(f.split(".")[0]).relpath, f, unparse(n).split("\n")[0][:70],
+                           "{}() runs while the ingested pages are still uncommitted and reaches a scope that rolls the open transaction back "
+                           "on failure: an error handled there discards every page read from the dump".format(c.func.id), n.lineno))
+        else:
+            rr.ok("dumpparser.process_dump", "{}() cannot roll back the pending pages".format(c.func.id), {"call": c.func.id})
+        if commits_unconditionally(callee):
+            committed = True
+            rr.ok("dumpparser.process_dump", "{}() commits unconditionally".format(c.func.id), {"commit_in": c.func.id})
+            break
+    if not committed:
+        rr.bad(Finding("C12.R7", DUMP, "dumpparser.process_dump", "no unconditional commit after parse_dump_xml",
+                       "the ingested pages are never committed on process_dump's own path", pd.lineno))
+    return rr
+
+
+def rule_r8(ctx) -> RuleResult:
+    """'each under its own title ... regardless of other contexts created earlier in the process':
+    the ingestion path keeps no state in objects shared between contexts (shared with C09.R2)."""
+    from ..core.report import shared
+    from . import c09
+
+    return shared(c09.rule_r2(ctx), "C12.R8", "ingestion keeps no state in module- or class-level objects (shared with C09.R2)",
+                  "a second language edition ingested in the same process is stored under the first edition's namespace prefixes",
+                  min_instances=15)
+
 def run(ctx) -> list:
     sf = SqlFacts(ctx.index)
     r4 = rule_r4(ctx)
     _share_page_exists(ctx, sf, r4)
-    return [rule_r1(ctx), rule_r2(ctx), rule_r3(ctx, sf), r4, rule_r5(ctx, sf), rule_r6(ctx)]
+    return [rule_r1(ctx), rule_r2(ctx), rule_r3(ctx, sf), r4, rule_r5(ctx, sf), rule_r6(ctx), rule_r7(ctx), rule_r8(ctx)]
